@@ -137,6 +137,7 @@ func (c *Check) runGuarded(i int, seed uint64, tier string) (o RunOut) {
 func (c *Check) finish(tier string, seed uint64, outs []RunOut, findings *kit.Findings, wall float64) int {
 	evals := 0
 	var steps int64
+	batch := kit.NewLog(0) // batch fingerprint: every execution's event-log hash, in run order
 	prints := map[uint64]bool{}
 	stats := kit.Counter{}
 	var samples []interface{}
@@ -154,7 +155,9 @@ func (c *Check) finish(tier string, seed uint64, outs []RunOut, findings *kit.Fi
 		steps += o.Steps
 		for _, p := range o.Prints {
 			prints[p] = true
+			batch.Add("%d:%016x", o.Index, p)
 		}
+		batch.Add("%d evals=%d viol=%d", o.Index, o.Evals, len(o.Violations))
 		if o.Stats != nil {
 			stats.Merge(o.Stats)
 		}
@@ -207,6 +210,7 @@ func (c *Check) finish(tier string, seed uint64, outs []RunOut, findings *kit.Fi
 		"components":          c.Components,
 		"known_findings_seen": knownSeen,
 		"simulated_time":      "no clock in the code under test: reported as sim_steps (seam crossings / yields)",
+		"batch_fingerprint":   batch.HashHex(),
 	}
 	if c.Exhaustive {
 		cov["exhaustive"] = true
